@@ -390,23 +390,29 @@ impl VariablesState {
         &mut self,
         jobj: &Map<String, serde_json::Value>,
     ) -> Result<(), StoryError> {
-        self.global_variables.clear();
+        // Build the new table first: a malformed save must not leave the
+        // variables half loaded.
+        let mut loaded: HashMap<String, Rc<Value>> = HashMap::new();
 
         for (k, v) in self.default_global_variables.iter() {
             let loaded_token = jobj.get(k);
 
             if let Some(loaded_token) = loaded_token {
-                self.global_variables.insert(
+                loaded.insert(
                     k.to_string(),
                     json_read::jtoken_to_runtime_object(loaded_token, None)?
                         .into_any()
                         .downcast::<Value>()
-                        .unwrap(),
+                        .map_err(|_| {
+                            StoryError::BadJson(format!("Saved variable '{k}' is not a value"))
+                        })?,
                 );
             } else {
-                self.global_variables.insert(k.clone(), v.clone());
+                loaded.insert(k.clone(), v.clone());
             }
         }
+
+        self.global_variables = loaded;
 
         Ok(())
     }
